@@ -201,7 +201,7 @@ def main():
         if os.path.exists(meta):
             m = json.load(open(meta))
             items.append(('seeded/' + sid, ('patch', os.path.join(sd, sid, 'patch.diff')),
-                          m.get('expected_checks') or [m['property']]))
+                          m['expected_checks'] if 'expected_checks' in m else [m['property']]))
     try:
         for name, how, exp in items:
             if want and name not in want and name.split('/')[-1] not in want:
